@@ -55,49 +55,72 @@ INVARIANT DistinctIds
 # all interleavings (paths), not only distinct states: no VIEW for the emitting run
 CFG_EMIT = CFG.replace('VIEW view\n', '') + 'INVARIANT Emit\n'
 
-KINDS = ['section', 'theorem', 'item', 'figure', 'subsection', 'table', 'equation']
+KINDS = ['section', 'theorem', 'item', 'figure', 'subsection', 'table', 'equation', 'eqrow']
 
 
 def concretise(beh, salt):
+    """Objects are sections, theorems, list items, figure/table captions, equations or eqnarray rows (chosen per
+    behaviour).  Placement variants: a label (and the references up to the next object) may sit INSIDE the object's
+    own argument -- section title, caption text, the optional argument of a theorem or an \\item -- and a caption
+    may be empty."""
     h = beh['h']
-    # which objects have a reference between their start and the next object start (no equation then)
     out = [r'\documentclass{article}', r'\newtheorem{tha}{Theorem}', r'\begin{document}', 'Start. ']
     closer = ''
     oi = 0
     nref = 0
-    for i, e in enumerate(h):
-        if e['e'] == 'obj':
-            out.append(closer)
-            closer = ''
-            oi += 1
-            # events up to the next object
-            j = i + 1
-            inner = []
-            while j < len(h) and h[j]['e'] != 'obj':
-                inner.append(h[j]['e'])
-                j += 1
-            kind = KINDS[(salt + oi * 3) % len(KINDS)]
-            if kind == 'equation' and 'ref' in inner:
-                kind = 'section'
-            if kind in ('section', 'subsection'):
-                out.append('\\%s{Title %d}' % (kind, oi))
-            elif kind == 'theorem':
-                out.append(r'\begin{tha}Statement %d. ' % oi)
-                closer = r'\end{tha}'
-            elif kind == 'item':
-                out.append(r'\begin{enumerate}\item Point %d. ' % oi)
-                closer = r'\end{enumerate}'
-            elif kind in ('figure', 'table'):
-                out.append(r'\begin{%s}\caption{Caption %d}' % (kind, oi))
-                closer = r'\end{%s}' % kind
-            else:
-                out.append(r'\begin{equation}x_%d' % oi)
-                closer = r'\end{equation}'
-        elif e['e'] == 'label':
-            out.append(r'\label{%s}' % e['x'])
+    i = 0
+
+    def ev_src(e):
+        nonlocal nref
+        if e['e'] == 'label':
+            return r'\label{%s}' % e['x']
+        nref += 1
+        return ' see %s{%s}. ' % (r'\ref' if (salt + nref) % 3 else r'\pageref', beh['reflabel'][e['x']])
+    while i < len(h):
+        e = h[i]
+        if e['e'] != 'obj':
+            out.append(ev_src(e))
+            i += 1
+            continue
+        out.append(closer)
+        closer = ''
+        oi += 1
+        j = i + 1
+        inner = []
+        while j < len(h) and h[j]['e'] != 'obj':
+            inner.append(h[j])
+            j += 1
+        kind = KINDS[(salt + oi * 3) % len(KINDS)]
+        variant = (salt // 7 + oi) % 3
+        if kind in ('equation', 'eqrow') and any(x['e'] == 'ref' for x in inner):
+            kind = 'section'
+        inside = ''
+        consumed = 0
+        if variant == 1 and inner and inner[0]['e'] == 'label' and kind not in ('equation', 'eqrow'):
+            # the leading label (sections, theorems, items) or all inner events (captions) go into the argument
+            take = len(inner) if kind in ('figure', 'table') else 1
+            inside = ''.join(ev_src(x) for x in inner[:take])
+            consumed = take
+        if kind in ('section', 'subsection'):
+            out.append('\\%s{Title %d%s}' % (kind, oi, inside))
+        elif kind == 'theorem':
+            out.append(r'\begin{tha}%s Statement %d. ' % ('[Name %d%s]' % (oi, inside) if inside else '', oi))
+            closer = r'\end{tha}'
+        elif kind == 'item':
+            out.append(r'\begin{enumerate}\item%s Point %d. ' % ('[Term %d%s]' % (oi, inside) if inside else '', oi))
+            closer = r'\end{enumerate}'
+        elif kind in ('figure', 'table'):
+            text = '' if variant == 2 else 'Caption %d' % oi
+            out.append(r'\begin{%s}\caption{%s%s}' % (kind, text, inside))
+            closer = r'\end{%s}' % kind
+        elif kind == 'equation':
+            out.append(r'\begin{equation}x_%d' % oi)
+            closer = r'\end{equation}'
         else:
-            nref += 1
-            out.append(' see %s{%s}. ' % (r'\ref' if (salt + nref) % 3 else r'\pageref', beh['reflabel'][e['x']]))
+            # the labelled equation is the SECOND line of an eqnarray (the first line carries no number)
+            out.append(r'\begin{eqnarray}a&=&b\nonumber\\ c&=&d_%d' % oi)
+            closer = r'\end{eqnarray}'
+        i += 1 + consumed
     out.append(closer)
     out.append(r' End.\end{document}')
     return ''.join(out)
@@ -111,6 +134,9 @@ def numbered_objects(doc):
         name = getattr(node, 'nodeName', None)
         if name in ('section', 'subsection', 'equation', 'thmenv', 'item', 'caption'):
             out.append(node)
+        elif isinstance(node, Array.ArrayRow) and getattr(node.parentNode, 'nodeName', None) == 'eqnarray':
+            if node.ref is not None:
+                out.append(node)
         for c in (node.childNodes if node.hasChildNodes() else []):
             if getattr(c, 'nodeType', None) in (c.ELEMENT_NODE, 11):
                 walk(c)
@@ -131,13 +157,21 @@ def replay_one(args):
     except Exception as ex:
         return 'raise', 'document raised %s: %s\n%s' % (type(ex).__name__, ex, src)
     objs = numbered_objects(d)
-    refs = [n for n in d.getElementsByTagName('ref') + d.getElementsByTagName('pageref')]
+    refs = []
+    for n in d.getElementsByTagName('ref') + d.getElementsByTagName('pageref'):
+        if not any(n is m for m in refs):
+            refs.append(n)
     # document order of reference nodes = order of ref events: sort by position in a full walk
     order = {}
 
     def walk(node, k=[0]):
-        order[id(node)] = k[0]
+        order.setdefault(id(node), k[0])
         k[0] += 1
+        for key, val in (getattr(node, 'attributes', None) or {}).items():
+            if key != 'self' and val is not None and hasattr(val, 'childNodes'):
+                for c in val.childNodes:
+                    if getattr(c, 'nodeType', None) in (c.ELEMENT_NODE, 11):
+                        walk(c)
         for c in (node.childNodes if node.hasChildNodes() else []):
             if getattr(c, 'nodeType', None) in (c.ELEMENT_NODE, 11):
                 walk(c)
